@@ -10,6 +10,7 @@ import Wx.Driver.Throttle
 import Wx.Driver.Reconf
 import Wx.Driver.FsReal
 import Wx.Driver.Kbd
+import Wx.Driver.Reg
 /-! one line in, one line out; `wxdriver <stream> [none|all]` -/
 
 partial def loop (f : String → String) (h : IO.FS.Stream) : IO Unit := do
@@ -31,6 +32,7 @@ def main (args : List String) : IO UInt32 := do
   | "pure" => loop Wx.Driver.Pure.handleLine stdin; return 0
   | "job" => loop (Wx.Driver.Job.handleLine (Wx.Driver.Job.cfgOf cfg)) stdin; return 0
   | "fsreal" => loop Wx.Driver.FsReal.handleLine stdin; return 0
+  | "reg" => loop Wx.Driver.Reg.handleLine stdin; return 0
   | "kbd" => loop Wx.Driver.Kbd.handleLine stdin; return 0
   | "reconf" => loop Wx.Driver.Reconf.handleLine stdin; return 0
   | "jobf" => loop (Wx.Driver.Job.handleLineF (Wx.Driver.Job.cfgOf cfg)) stdin; return 0
